@@ -279,8 +279,9 @@ class Flat(Harness):
         ns = (0, 1, 3, 4) if tier == "quick" else (0, 1, 2, 3, 4, 6)
         for kind in ("ascii", "ACGTnEncoding"):
             for n in ns:
-                for op in ("idx_last", "slice_mid", "rev", "mask", "ilist", "eq_char", "eq_array", "assign_idx", "assign_mask", "concat", "copy"):
-                    if n == 0 and op in ("idx_last", "ilist", "assign_idx"):
+                for op in ("idx_last", "slice_mid", "rev", "mask", "ilist", "eq_char", "eq_array", "assign_idx", "assign_mask", "concat", "copy",
+                           "assign_idx_str", "assign_mask_str", "assign_slice_str"):     # *_str: the assigned value is a Python str (documented)
+                    if n == 0 and op in ("idx_last", "ilist", "assign_idx", "assign_idx_str"):
                         continue
                     out.append(dict(kind=kind, n=n, op=op))
         # history across arrays: an array built from a literal is edited in place, then the same literal is encoded / compared again
@@ -358,6 +359,15 @@ class Flat(Harness):
         elif op == "assign_mask":
             r = e.copy()
             r[r == ch] = ch2
+        elif op == "assign_idx_str":
+            r = e.copy()
+            r[x["i0"]] = "G"
+        elif op == "assign_mask_str":
+            r = e.copy()
+            r[r == ch] = "G"
+        elif op == "assign_slice_str":
+            r = e.copy()
+            r[1:3] = "GT"[:len(range(n)[1:3])]
         elif op == "concat":
             r = ctx.np.concatenate([e, e[::-1]])
         elif op == "copy":
@@ -401,6 +411,12 @@ class Flat(Harness):
             return [("assign_at", i, t) for i, t in enumerate(s)]
         if op == "assign_mask":
             return [I(t, ch, ch2) for t in s]
+        if op == "assign_idx_str":
+            return [("assign_at", i, t, letter(skel["kind"], "G")) for i, t in enumerate(s)]
+        if op == "assign_mask_str":
+            return [I(t, ch, letter(skel["kind"], "G")) for t in s]
+        if op == "assign_slice_str":
+            return [letter(skel["kind"], "GT"[i - 1]) if 1 <= i < 3 else t for i, t in enumerate(s)]
         if op == "concat":
             return s + s[::-1]
         return list(s)
@@ -436,7 +452,7 @@ class Flat(Harness):
                 conj.append(TB(g) == z_and([a == b for a, b in zip(e[1], e[2])]))
             elif isinstance(e, tuple) and e[0] == "assign_at":
                 i0 = x["i0"].t
-                conj.append(TI(g) == z3.If(z3.Or(i0 == e[1], i0 == e[1] - n), x["ch2"].t, e[2]))
+                conj.append(TI(g) == z3.If(z3.Or(i0 == e[1], i0 == e[1] - n), e[3] if len(e) > 3 else x["ch2"].t, e[2]))
             else:
                 conj.append(TI(g) == e)
         cmp(out["v"], exp)
